@@ -1,1 +1,72 @@
-(* placeholder, completed below *)
+(* C01 - single-ended calibration is the weighted least-squares fit, with its covariance.  Statements only. *)
+From Coq Require Import List ZArith QArith Qabs Bool Arith.
+Import ListNotations.
+Require Import DTS.Base.Dyadic DTS.Base.WLS DTS.Model.Layout DTS.Model.Design DTS.Corr.WlsC DTS.Proofs.WlsCP DTS.Proofs.DesignP.
+Local Open Scope Q_scope.
+
+Notation qrows := (list (row (P:=param))).
+
+(* T1: parameters that satisfy the normal equations minimise the weighted sum of squared residuals over ALL parameter
+   assignments - for any number of rows and unknowns *)
+Theorem C01_normal_equations_minimise (rows : qrows) p : (forall r, In r rows -> 0 <= rwgt r) ->
+  (forall d, Gd rows p d == 0) -> forall q, S rows p <= S rows q.
+Proof. exact (normal_eq_minimises rows p). Qed.
+(* T2: and conversely *)
+Theorem C01_minimiser_satisfies_normal_equations (rows : qrows) p : (forall r, In r rows -> 0 <= rwgt r) ->
+  (forall q, S rows p <= S rows q) -> forall d, Gd rows p d == 0.
+Proof. exact (minimiser_normal_eq rows p). Qed.
+(* T3: any two optima give the same fitted value on every positively weighted observation *)
+Theorem C01_fitted_values_unique (rows : qrows) p q : (forall r, In r rows -> 0 <= rwgt r) ->
+  (forall d, Gd rows p d == 0) -> (forall d, Gd rows q d == 0) ->
+  forall r, In r rows -> 0 < rwgt r -> eval (rform r) p == eval (rform r) q.
+Proof. exact (fitted_values_unique rows p q). Qed.
+(* the per-column form used by the conformance test *)
+Theorem C01_column_normal_equations cols (rows : qrows) p : NoDup cols -> (forall r, In r rows -> supported cols (rform r)) ->
+  (forall a, In a cols -> Ga param_eqb rows p a == 0) -> forall d, Gd rows p d == 0.
+Proof. exact (column_normal_eq param_eqb param_eqb_spec cols rows p). Qed.
+
+(* T5: for every nt and every list of reference locations, row t*nxs + j of the design is the Raman equation of location j
+   at time t (own bath, own coordinate, own C(t), the splices acting at that location) with its own observation *)
+Theorem C01_rows_are_the_raman_equations {K} (kopp : K -> K) (kone kzero : K) nt locs x act ginv I wa wrow t j d :
+  (t < nt)%nat -> (j < length locs)%nat ->
+  nth (t * length locs + j)%nat (se_rows kopp kone kzero nt locs x act ginv I wa wrow) d =
+  {| kform := se_form kopp kone kzero x act ginv wa t (nth j locs (0, 0)%nat);
+     kobs := at2 kzero I (fst (nth j locs (0, 0)%nat)) t;
+     kwgt := wrow (t * length locs + j)%nat |}.
+Proof. exact (se_rows_nth kopp kone kzero nt locs x act ginv I wa wrow t j d). Qed.
+
+(* T6: "each observation is weighted by the inverse of its OWN noise variance".
+   The observation of row r is cell (r mod nxs, r / nxs).  Reading the weight of that same cell satisfies the clause;
+   the code ravels the (nxs x nt) weight array x-major, which addresses cell (r / nt, r mod nt):
+   REFUTED in general (finding F1, recorded as a known finding - its repair moves a pinned test value),
+   PARTIAL: it coincides when nt = 1 or nxs = 1. *)
+Theorem C01_weight_own_cell : weight_own cell_time_major.
+Proof. exact weight_own_spec. Qed.
+Theorem C01_weight_as_coded_refuted : ~ weight_own cell_x_major.
+Proof. exact weight_own_code_refuted. Qed.
+Theorem C01_weight_as_coded_partial nxs nt r : (nt = 1 \/ nxs = 1)%nat -> (r < nxs * nt)%nat ->
+  cell_x_major nxs nt r = cell_time_major nxs nt r.
+Proof. exact (weight_own_code_partial nxs nt r). Qed.
+
+(* the conformance test evaluated on the implementation's output is a statement about the rational quantities above *)
+Theorem C01_residual_test_sound e rows p cols : normal_ok e rows p cols = true ->
+  forall a, In a cols -> Qabs (Ga param_eqb (map qrow rows) (qpar p) a) <= Qpower 2 e * D2Q (dSa rows p a).
+Proof. exact (normal_ok_sound e rows p cols). Qed.
+Theorem C01_zero_gradient_is_the_wls_optimum rows p cols :
+  NoDup cols -> (forall r, In r rows -> supported cols (qform (kform r))) -> (forall r, In r rows -> 0 <= D2Q (kwgt r)) ->
+  (forall a, In a cols -> D2Q (dGa rows p a) == 0) ->
+  forall q, S (map qrow rows) (qpar p) <= S (map qrow rows) q.
+Proof. exact (exact_gradient_zero_is_optimum rows p cols). Qed.
+Theorem C01_columns_listed_once nt nx nta wa : NoDup (cols_se nt nx nta wa).
+Proof. exact (cols_se_NoDup nt nx nta wa). Qed.
+
+(* non-vacuity: a two-row, one-unknown system and its optimum *)
+Example C01_ex : let rows := [ {| rform := [(Gamma, 1)]; robs := 2; rwgt := 1 |}; {| rform := [(Gamma, 1)]; robs := 4; rwgt := 3 |} ] in
+  forall d, Gd rows (fun _ => 7 # 2) d == 0.
+Proof. intros rows d. unfold rows, Gd, resid, eval. simpl. ring. Qed.
+
+Print Assumptions C01_normal_equations_minimise. Print Assumptions C01_minimiser_satisfies_normal_equations.
+Print Assumptions C01_fitted_values_unique. Print Assumptions C01_column_normal_equations.
+Print Assumptions C01_rows_are_the_raman_equations. Print Assumptions C01_weight_own_cell. Print Assumptions C01_weight_as_coded_refuted.
+Print Assumptions C01_weight_as_coded_partial. Print Assumptions C01_residual_test_sound. Print Assumptions C01_zero_gradient_is_the_wls_optimum.
+Print Assumptions C01_columns_listed_once.
